@@ -119,6 +119,14 @@ CLAIMED["C17"] = dict(
     note=TRUST + " Sem/GoSem.v is a model of Go (interface assertions by method set) and Sem/Src.v the source-level meaning; validation per program, not a proof about all programs.",
 )
 
+CLAIMED["C18"] = dict(
+    category="translation_validation",
+    technique="per-program validation: generated derived struct/enum definitions and values are compiled by the real compiler, the real Go AST is executed by the Coq Go semantics (Sem/GoSem.v, with its strconv.Quote model for %q) inside coqc, and the printed to_string / to_json are compared with the documented rendering and decoded by a JSON parser back to the value; definitions the derive cannot handle must give a diagnostic or working code",
+    text="1-4 definitions per program with 0-4 fields/variants over all integer types, bool, string, unit and earlier/recursive derived types, field names incl. tag, fields, to_json, to_string; values with quotes, backslashes, line breaks, JSON syntax and control characters in strings. to_string must equal Name { f: v } / Enum::Variant(v); to_json must be well-formed JSON that decodes to the value with an object per struct and tag/fields per variant (duplicate keys rejected). 13 unsupported or hostile definitions (generic, Vec/tuple/Ref/function fields, fields named like helpers, self). No theorem about derive::expand.",
+    design_ref="DESIGN.md §4 C18",
+    note=TRUST + " Python's json module is the JSON oracle; non-ASCII strings are outside the Go model's Quote; control characters in strings are a known finding (json_escape_string is %q).",
+)
+
 NOT_YET = {}
 
 def main():
